@@ -70,7 +70,21 @@ class C14(OutstationProp):
         last_failed_at = None
         last_null_seq = None
         pending_enable = None
+        reads = {}                  # sequence number -> the READ request received last with it
         for op, t, lines in steps:
+            if op[0] == "rx" and op[2] == "none" and (int(op[1]) == MASTER or int(cfg.get("anymaster", 0)) == 1):
+                rb = bytes.fromhex(op[3]) if op[3] != "-" else b""
+                if len(rb) >= 2 and rb[1] == 1 and any(" > digest " in l and "obj=ok" in l and "rv=ok" in l for l in lines):
+                    reads[rb[0] & 15] = rb
+            # a READ deferred during the confirm wait is answered for what IT asked, not for what a READ it
+            # superseded asked (seeded changes C11_c / C14_c: DeferredRead::set without clear)
+            for (_, _, x) in txs(lines):
+                if len(x) >= 4 and x[1] == 129 and (x[0] & 0x80) and (x[0] & 15) in reads:
+                    allowed = read_allowed_groups(reads[x[0] & 15])
+                    got = response_groups(x)
+                    if allowed is not None and got is not None and not got <= allowed:
+                        fails.append(("read-answered-with-unselected-objects", "the response to READ %s carries objects of groups %s that this READ did not select"
+                                      % (reads[x[0] & 15].hex(), sorted(got - allowed))))
             if op[0] == "rx":
                 b = bytes.fromhex(op[3]) if op[3] != "-" else b""
                 accepted = op[2] == "none" and int(op[1]) == MASTER or (op[2] != "none" and int(cfg.get("broadcast", 1)) == 1)
